@@ -9,7 +9,7 @@ ID = "C13"
 LEVEL = "exploration"
 ORACLES = ("wcag", "csscolor")
 RULE = ("(foreground, alpha, background) triples: alpha in {0, 1, 0.5, 0.001, 0.999, 0.9999999999999999, 1e-5..1e-7, random 1-6 digits}, text spelled as "
-        "rgba(), hsla(), RGBA tuple, RGBA list (and rgb() carrying an alpha, the informal list); background in every string and tuple form the reader accepts or itself translucent (composited over white). Oracle: "
+        "rgba(), hsla(), RGBA tuple, RGBA list (and rgb() carrying an alpha, percentage alphas, the informal list, 0/1-channel and mixed int/float tuples, text and background written identically); background in every string and tuple form the reader accepts or itself translucent (composited over white). Oracle: "
         "pair.text.rgb within 1.5 units of the exact source-over blend over the pair's own background, alpha=1 -> the foreground's nearest "
         "8-bit value, alpha=0 -> the background exactly; is_readable equals the WCAG label of that composite; make_readable (3% of cases) "
         "obeys the C01/C02 relations on the composite. Non-trivial = 0 < alpha < 1 and background not white; distinct = (fg,alpha,bg,spelling).")
